@@ -151,6 +151,14 @@ def scrape_tables(root, fs, emitted, which):
     mstem = os.path.splitext(os.path.basename(fs["main"]))[0]
     c_texts = [scrape.rd(os.path.join(od, "c", s + ".h")) for s in stems]
     defs = scrape.c_defines(c_texts)
+    # ... as the preprocessor resolves them (what a compiled stub really sends: a redefinition replaces,
+    # an #ifndef-guarded definition yields); the textual reading (a name defined twice with different bodies
+    # is a conflict) is the fallback when the preprocessor cannot be run on the header
+    pp = scrape.c_defines_pp(os.path.join(od, "c", mstem + ".h"), [os.path.join(scrape.vlib_tests(), "c"), os.path.join(od, "c")])
+    if pp is not None:
+        for name_ in list(defs):
+            if name_ in pp:
+                defs[name_] = pp[name_]
     main_c = scrape.rd(os.path.join(od, "c", mstem + ".h"))
     if which == "ops":
         t, _ = scrape.c_stub_ops(main_c, defs, tops)
